@@ -262,6 +262,20 @@ func genC18(e *emitter, tier string) {
 	e.emit(loadCase("mutate:graph", mut(func(mp *onnx.ModelProto) { mp.Graph.Input[0].Type = nil }), "input without type"))
 	e.emit(loadCase("mutate:graph", mut(func(mp *onnx.ModelProto) { mp.Graph.Input = append(mp.Graph.Input, &onnx.ValueInfoProto{}) }), "empty value info"))
 	e.emit(loadCase("mutate:graph", mut(func(mp *onnx.ModelProto) { mp.Graph.Node = append(mp.Graph.Node, &onnx.NodeProto{}) }), "empty node"))
+	// node attributes that declare a type and carry NO payload (TENSOR without t, GRAPH without g, ...), nil
+	// entries in the repeated fields: whatever load looks at, it finds out without dereferencing
+	for ty := int32(0); ty <= 14; ty++ {
+		ty := ty
+		e.emit(loadCase("mutate:attribute-without-payload", mut(func(mp *onnx.ModelProto) {
+			mp.Graph.Node[0].Attribute = append(mp.Graph.Node[0].Attribute, &onnx.AttributeProto{Name: "value", Type: onnx.AttributeProto_AttributeType(ty)})
+		}), fmt.Sprint(ty)))
+	}
+	e.emit(loadCase("mutate:attribute-without-payload", mut(func(mp *onnx.ModelProto) {
+		mp.Graph.Node[0].Attribute = append(mp.Graph.Node[0].Attribute, &onnx.AttributeProto{Name: "value", Type: onnx.AttributeProto_TENSORS, Tensors: []*onnx.TensorProto{{}, {Dims: []int64{-1}}}})
+	}), "tensors"))
+	e.emit(loadCase("mutate:attribute-without-payload", mut(func(mp *onnx.ModelProto) {
+		mp.Graph.Node = append(mp.Graph.Node, &onnx.NodeProto{OpType: "Constant", Output: []string{"c"}, Attribute: []*onnx.AttributeProto{{Name: "value", Type: onnx.AttributeProto_TENSOR}}})
+	}), "constant node"))
 	// (4) opset versions 0..64 in one and in two domains
 	for v := int64(-1); v <= 64; v++ {
 		v := v
